@@ -983,6 +983,20 @@ class Interp:
                 return False
             conj.append(self.it(tot) == 0)
             return z3.And(conj)
+        # one opaque chunk of symbolic length against pieces of concrete total length: byte-wise
+        for one, other in ((ca, cb), (cb, ca)):
+            if len(one) == 1 and isinstance(one[0], OB) and self.total_concrete(other):
+                L = sum(chunk_len(c) for c in other)
+                if L <= 80:
+                    n = one[0].n
+                    bs = []
+                    pos = 0
+                    for c in other:
+                        for j in range(chunk_len(c)):
+                            bs.append(self._bt(self.chunk_byte(c, j)) == self.ob_at_sym(one[0], I(pos)))
+                            pos += 1
+                    conj.append((n if not isinstance(n, int) else I(n)) == L)
+                    return z3.And(conj + bs)
         # fallback: lengths equal and canonical B terms equal
         la, lb = self.length(mk_bytes(ca)), self.length(mk_bytes(cb))
         conj.append(self.it(la) == self.it(lb))
